@@ -169,7 +169,11 @@ void Runner::exec_op(Thread *t, int idx) {
         if (res.ret != h->pid) {
           viol("C04", "pid-mismatch", "", fmt("reproc_pid returned %lld, the child forked for this handle has pid %d", res.ret, h->pid), idx);
         }
-      } else expect_einval(res.ret);
+      } else {
+        expect_einval(res.ret);
+        if (st0 == LS_NEW && h->start_failed_once && res.ret != C.EINVAL_)
+          viol("C04", "pid-after-failed-start", "", fmt("start failed on this handle but reproc_pid returns %lld instead of the invalid-argument error", res.ret), idx);
+      }
       tuple(OP_PID, (uint64_t) st0, (uint64_t) (res.ret < 0));
       return;
     }
